@@ -1146,7 +1146,7 @@ void htp_utf8_validate_path(htp_tx_t *tx, bstr *path) {
                 }
 
                 // Special flag for half-width/full-width evasion.
-                if ((codepoint > 0xfeff) && (codepoint < 0x010000)) {
+                if ((codepoint >= 0xff00) && (codepoint <= 0xffef)) {
                     tx->flags |= HTP_PATH_HALF_FULL_RANGE;
                 }
 
@@ -1206,7 +1206,7 @@ static uint8_t decode_u_encoding_path(htp_cfg_t *cfg, htp_tx_t *tx, unsigned cha
         tx->flags |= HTP_PATH_OVERLONG_U;
     } else {
         // Check for fullwidth form evasion
-        if (c1 == 0xff) {
+        if ((c1 == 0xff) && (c2 <= 0xef)) {
             tx->flags |= HTP_PATH_HALF_FULL_RANGE;
         }
 
